@@ -11,5 +11,5 @@ import (
 func init() {
 	l := logrus.New()
 	l.SetOutput(os.Stderr)
-	envlog.ConfigureAllLoggers(l, "")
+	envlog.ConfigureAllLoggers(l, os.Getenv("LOG"))
 }
